@@ -42,7 +42,10 @@ type vev struct {
 	path  string
 	avail []byte
 }
-type vtrace struct{ ev []vev }
+type vtrace struct {
+	ev []vev
+	sc *sconn
+}
 
 func (t *vtrace) add(kind, path string, b []byte) {
 	t.ev = append(t.ev, vev{kind, path, append([]byte(nil), b...)})
@@ -77,7 +80,13 @@ func vh(tr *vtrace, path string, cons int, term bool) Middleware {
 	return wrapHandler(NextHandlerFunc(func(cx *Connection, next Handler) error {
 		if cons > 0 {
 			buf := make([]byte, cons)
+			if tr.sc != nil {
+				tr.sc.inHandler = true
+			}
 			n, _ := io.ReadFull(cx, buf)
+			if tr.sc != nil {
+				tr.sc.inHandler = false
+			}
 			tr.add("read", path, buf[:n])
 		}
 		if term {
@@ -464,6 +473,7 @@ func vRouteCase(r *vrng) (caseLine string, trace string, sig, desc string) {
 		stream = append(stream, c...)
 	}
 	sc := &sconn{chunks: chunks}
+	tr.sc = sc
 	h := routes.Compile(zap.NewNop(), time.Hour, HandlerFunc(func(cx *Connection) error {
 		tr.add("fallback", "", cx.MatchingBytes())
 		return nil
@@ -475,6 +485,20 @@ func vRouteCase(r *vrng) (caseLine string, trace string, sig, desc string) {
 	}
 	tr.add("leave", "", cx.MatchingBytes())
 	sig, desc = vRouteOracle(specs, tr, stream, hasMultiSub(specs))
+	if sig == "" {
+		// C05: matching reads happen under the matching deadline, handler reads without it
+		for k, t := range sc.readLog {
+			switch t {
+			case "P0":
+				sig, desc = "prefetch-without-deadline", fmt.Sprintf("socket read %d of the matching phase happened with no read deadline set (%v)", k, sc.readLog)
+			case "H1":
+				sig, desc = "handler-read-under-deadline", fmt.Sprintf("socket read %d made by a handler after its route matched still had the matching deadline set (%v)", k, sc.readLog)
+			}
+			if sig != "" {
+				break
+			}
+		}
+	}
 	return strings.Join(g.tok, " "), tr.String(), sig, desc
 }
 
